@@ -237,12 +237,14 @@ fn blind_path(rng: &mut Rng) -> Vec<PE> {
 /// Documents that force the skippers across block edges: a member to be skipped whose strings contain
 /// brackets, quotes and backslash runs, padded so that these land around offsets 30..33 / 62..65 of a block.
 pub fn stress_doc(rng: &mut Rng) -> (Vec<u8>, Vec<PE>) {
-    let pad = *rng.pick(&[0usize, 1, 2, 3, 20, 27, 28, 29, 30, 31, 32, 33, 34, 57, 58, 59, 60, 61, 62, 63, 64, 65, 66, 90, 121, 122, 123, 124, 125, 126, 127, 128, 129, 186, 187]) + rng.below(2);
+    // the first tricky sequence starts at offset `pad` of the string content: around every 32/64-byte block edge
+    let pad = if rng.chance(1, 5) { rng.below(200) } else { *rng.pick(&[28usize, 29, 30, 31, 32, 33, 34, 60, 61, 62, 63, 64, 65, 66, 93, 94, 95, 96, 97, 124, 125, 126, 127, 128, 129, 130, 190, 191, 192, 193]) };
     let mut s = Vec::new();
     for _ in 0..pad { s.push(*rng.pick(b"abcxyz 019")); }
     let tricky: &[&[u8]] = &[b"\\\"", b"\\\\", b"\\\\\\\"", b"]", b"}", b"{", b"[", b",", b":", b"\\n", b"\\u0041", b"\\\\\\\\", b"\\\"]", b"}\\\"{"];
     for _ in 0..rng.range(1, 3) { s.extend_from_slice(*rng.pick(tricky)); for _ in 0..rng.below(3) { s.push(b'q'); } }
-    let tail_pad = rng.below(40);
+    // short tails leave fewer than one SIMD block after the edge (scalar tail loops), long ones keep the SIMD loop going
+    let tail_pad = if rng.chance(1, 2) { rng.below(6) } else { rng.below(70) };
     for _ in 0..tail_pad { s.push(b't'); }
     let inner: Vec<u8> = match rng.below(4) {
         0 => [&b"\""[..], &s, b"\""].concat(),
@@ -258,7 +260,7 @@ pub fn stress_doc(rng: &mut Rng) -> (Vec<u8>, Vec<PE>) {
     };
     // optionally pad the tail so that SIMD loops (which need >= 32/64 remaining bytes) engage
     let mut doc = doc;
-    if rng.chance(1, 2) { for _ in 0..rng.range(1, 70) { doc.push(b' '); } }
+    if rng.chance(1, 3) { for _ in 0..rng.range(1, 70) { doc.push(b' '); } }
     (doc, path)
 }
 
